@@ -10,9 +10,9 @@ from vlib import drive
 PROPERTY = "C14"
 RULE = ("case: strategy in {dimension-wise (versions 6/2/3/7/8, rebalancing, boundary), extend-split (versions 0-2)}, d 2-3, a built-in "
         "(dill-picklable) integrand with drawn parameters, the library's own error estimators, final limit K2. The uninterrupted run "
-        "(tol=-1, max_evaluations=K2) is recorded; then EVERY evaluation index k of that run (all of them in the thorough tier and whenever "
+        "(final limits: max_evaluations=K2 and either no tolerance or an error value observed in the tol=-1 history) is recorded; then EVERY evaluation index k of that run (all of them in the thorough tier and whenever "
         "the history has <= 8 evaluations, otherwise a drawn subset of 8) is used as interruption point: a fresh run with "
-        "max_evaluations = n_k - 1 stops there and is continued to K2 in a drawn mode: continue directly / save_to_file -> "
+        "max_evaluations = n_k - 1 (or with the weaker tolerance err_k) stops there and is continued to K2 in a drawn mode: continue directly / save_to_file -> "
         "restore_from_file -> continue the restored object / save, then continue BOTH the original and the restored object. Oracle: final "
         "refinement structure, scheme, lmax, combined result (1e-12 rel) and last point count equal the uninterrupted run's; a restored "
         "object answers __call__ and the point/weight getters bit-identically to the saved one. Non-trivial = an interruption at k>=1 "
@@ -48,7 +48,7 @@ def build(case):
     dim = case["dim"]
     a, b = np.array(case["a"], dtype=float), np.array(case["b"], dtype=float)
     f = make_function(case)
-    ref = np.array([1.0])
+    ref = np.array([float(f.getAnalyticSolutionIntegral(a, b))])     # the true integral, so that errors are real errors
     if case["kind"] == "dw":
         from sparseSpACE.spatiallyAdaptiveSingleDimension2 import SpatiallyAdaptiveSingleDimensions2
         from sparseSpACE.Grid import GlobalTrapezoidalGrid
@@ -82,16 +82,16 @@ def snapshot(sa, kind):
     return ref, sch, tuple(int(x) for x in sa.lmax)
 
 
-def first_run(case, maxev):
+def first_run(case, maxev, tol=-1):
     sa, op, err = build(case)
     with drive.quiet():
-        r = sa.performSpatiallyAdaptiv(case["lmin"], case["lmax"], err, tol=-1, max_evaluations=maxev, print_output=False)
+        r = sa.performSpatiallyAdaptiv(case["lmin"], case["lmax"], err, tol=tol, max_evaluations=maxev, print_output=False)
     return sa, r
 
 
-def cont(sa, maxev):
+def cont(sa, maxev, tol=-1):
     with drive.quiet():
-        return sa.continue_adaptive_refinement(tol=-1, max_evaluations=maxev)
+        return sa.continue_adaptive_refinement(tol=tol, max_evaluations=maxev)
 
 
 def observable(sa, pts):
@@ -117,7 +117,16 @@ def run(case):
     sub = kind
     K2 = case["maxev"]
     full_sa, full = first_run(case, K2)
+    tol_final = -1
+    tsel = case.get("tol_sel", [0, 0])
+    if tsel[0]:
+        # final limits with an effective tolerance: an error value observed in the tol=-1 history (so the uninterrupted run
+        # with the final limits stops by the tolerance clause somewhere inside that history)
+        E_probe = [float(x) for x in full[5]]
+        tol_final = E_probe[tsel[1] % len(E_probe)] * (1 + 1e-9)
+        full_sa, full = first_run(case, K2, tol=tol_final)
     N = [int(x) for x in full[6]]
+    E_full = [float(x) for x in full[5]]
     full_snap = snapshot(full_sa, kind)
     full_res = np.asarray(full[3], dtype=float)
     nt = 0
@@ -133,13 +142,21 @@ def run(case):
     for j, k in enumerate(ks):
         K1 = N[k] - 1
         mode = modes[j % len(modes)]
-        sa2, r1 = first_run(case, K1)
+        leg = case.get("legs", ["max"])[j % len(case.get("legs", ["max"]))]
+        if leg == "tol" and E_full[k] > tol_final and E_full[k] > 0:
+            # first leg limited by a weaker tolerance instead of a smaller point limit
+            sa2, r1 = first_run(case, K2, tol=E_full[k] * (1 + 1e-9))
+            K1 = "tol=%.3g" % (E_full[k] * (1 + 1e-9))
+        else:
+            leg = "max"
+            sa2, r1 = first_run(case, K1)
         n_at_stop = int(r1[6][-1])
         extra = None
         if kind == "es":
             vals = [np.asarray(o.value, dtype=float) for o in sa2.refinement.get_new_objects()]
             extra = np.sum(vals, axis=0) if vals else np.zeros_like(full_res)
-        tag = "interrupted at evaluation %d of %d (max_evaluations %d -> %d), mode %s" % (len(r1[6]) - 1, len(N) - 1, K1, K2, mode)
+        tag = "interrupted at evaluation %d of %d (first leg %s, final limits tol=%.3g max_evaluations=%d), mode %s" % (
+            len(r1[6]) - 1, len(N) - 1, K1 if leg == "tol" else "max_evaluations=%s" % K1, tol_final, K2, mode)
         targets = []
         if mode == "direct":
             targets = [("original", sa2)]
@@ -165,7 +182,7 @@ def run(case):
                     out.bad(sub + "/restored-instance-differs/points-and-weights", tag)
             targets = [("restored", restored)] + ([("original", sa2)] if mode == "both" else [])
         for name, obj in targets:
-            r2 = cont(obj, K2)
+            r2 = cont(obj, K2, tol_final)
             snap2 = snapshot(obj, kind)
             res2 = np.asarray(r2[3], dtype=float)
             same_struct = snap2 == full_snap
@@ -186,7 +203,7 @@ def run(case):
                     out.bad(sub + "/final-result-differs", "%s: %s vs uninterrupted %s" % (t2, res2, full_res))
             if len(r1[6]) - 1 >= 1 and len(r2[6]) > len(r1[6]):
                 nt += 1
-            out.cls("mode=" + mode)
+            out.cls("mode=" + mode, "leg=" + leg, "final-tol=%s" % ("none" if tol_final == -1 else "observed-error"))
     out.nontrivial = nt >= 1
     out.cls("kind=" + kind, "version=%d" % case["version"], "function=" + case["function"])
     out.info = dict(max_history_len=len(N), max_interruptions=len(ks), max_points=N[-1])
@@ -203,7 +220,9 @@ def _strategy(kind):
             c = dict(kind=kind, dim=dim, a=a, b=b, fseed=draw(st.integers(0, 10 ** 6)),
                      function=draw(st.sampled_from(["cornerpeak", "productpeak", "oszillatory", "gaussian", "c0"])),
                      modes=draw(st.lists(st.sampled_from(["direct", "saved", "both"]), min_size=1, max_size=4)),
-                     all_points=(tier == "thorough"))
+                     all_points=(tier == "thorough"),
+                     tol_sel=[draw(st.sampled_from([0, 1, 1])), draw(st.integers(0, 40))],
+                     legs=draw(st.lists(st.sampled_from(["max", "max", "tol"]), min_size=1, max_size=3)))
             if kind == "dw":
                 c.update(lmin=1, lmax=2, version=draw(st.sampled_from([6, 6, 2, 3, 7, 8])), rebalancing=draw(st.booleans()),
                          boundary=draw(st.booleans()), maxev=draw(st.integers(30, 250 if dim == 2 else 200)))
